@@ -64,6 +64,9 @@ CHECKS = {
     "C18": ("exploration", "bounded-exhaustive enumeration of networks of every format; write/read/write cycles compared field by field and byte by byte; export + re-render compared by compiled evaluation",
             "Every line of C07's space (5 typed formats, 200 reactions per file) is read, written in the native format, read back and written again: reactions in order with multisets, window, type, index, source tag and printed-precision coefficients must be preserved and the second cycle must be byte-identical. For every gas-phase (format,type), a KROME rate and every (entry path, dust model, process), a one-reaction project is exported and re-rendered from its own files; both EvalRates are compiled by g++ and must evaluate equal, or the re-render must raise.",
             "Refusals and non-compiling re-renders are not violations (not silent). Physical values are set identically on both sides (zeta = zeta_cr, zeta_xr = 0).", "DESIGN.md §2 C18"),
+    "C19": ("fault_enumeration", "stateless depth-first enumeration of integrator outcome sequences (choice vectors with prefix replay) compiled against the rendered Solve/HandleError with a scripted mock integrator",
+            "The rendered naunet.cpp (dense, sparse, odeint) is compiled with a mock integrator of y'=1, so the final state measures integrated time. Every sequence of outcomes within the pass alphabets - success, fail(flag, progress fraction) per CVode call at the offered positions of all five recovery levels, failing re-initialisation - is executed; on each: SUCCESS iff exactly dt was integrated and the last answer was a success, unrecoverable flags/failed re-init/level-5 failure give FAIL with the initial state logged, no integrator call after an unrecoverable flag, tout strictly increasing. Odeint: step counts around the budget and exceptions from the system function.",
+            "The mock reproduces the CVODE calling convention (tret = time reached, yout advanced), not its numerics. Failure positions are restricted per pass (stated in the evidence); a capped pass is reported as such. cuSPARSE Solve is not covered.", "DESIGN.md §2 C19"),
 }
 
 NOT_YET = {
